@@ -77,6 +77,14 @@ def one_way_neighbour(sim, comp, views):
     return False
 
 
+def gen_identifier(sim, nick):
+    inst = sim.instances.get(nick)
+    if inst is not None:
+        return inst.identifier
+    from supvsim import gen
+    return gen.identifier_of(sim.config, nick)
+
+
 def sync_satisfiable(config, comp):
     """ Can the members of this component leave SYNCHRONIZATION and stay out of it (DESIGN section 6, C08)? """
     synchro, core, strategy = effective_options(config)
@@ -109,6 +117,8 @@ class MasterConvergence(Observer):
         self.global_disturb_us = 0
         self.samples = []      # (t_us, {nick: declared master nick or ''})
         self.last_self_master = {}
+        self.declared = {}
+        self.forced_master = {}
 
     def _probe(self, name):
         self.probes[name] = self.probes.get(name, 0) + 1
@@ -131,6 +141,50 @@ class MasterConvergence(Observer):
             self.disturb_us[item['inst']] = now + int(item['d'] * US)
         elif kind == 'rpc' and item['method'] in ('supvisors.restart', 'supvisors.shutdown', 'supvisors.end_sync'):
             self.global_disturb_us = now
+
+    def on_publication(self, sim, inst, ptype, body):
+        """ Election rule, judged from the elector's own view at the instant it declares a Master. """
+        from supvisors.ttypes import PublicationHeaders
+        if ptype != PublicationHeaders.STATE:
+            return
+        key = (inst.nick, inst.incarnation)
+        new = body['master_identifier']
+        old = self.declared.get(key, '')
+        if new == old:
+            return
+        self.declared[key] = new
+        if not new:
+            return
+        if sim.now_us - self.forced_master.get(inst.nick, -10**12) < 2 * US:
+            return  # end_sync(master): the user's choice
+        with frozen(sim, inst):
+            modes = {m['identifier']: m for m in inst.rpcif.get_all_instances_state_modes()}
+        own = modes[inst.identifier]
+        running = {i for i, st in own['instance_states'].items() if st == 'RUNNING'}
+        declared = set()
+        for ident in running:
+            d = old if ident == inst.identifier else modes[ident]['master_identifier']
+            if d:
+                declared.add(d)
+        self._probe('election_decision')
+        detail = {'inst': inst.nick, 'chosen': new, 'previous': old, 'running': sorted(running),
+                  'declared': sorted(declared), 'fsm': body['fsm_statename']}
+        if body['fsm_statename'] == 'SYNCHRONIZATION':
+            # accept_master (USER option): any Master already declared by a RUNNING instance
+            if new not in declared:
+                self.violate('accept-master', detail, 'accept-master-not-declared')
+            return
+        cands = {d for d in declared if d in running} or running
+        nick = lambda i: sim.by_identifier.get(i, i)   # noqa
+        core = [gen_identifier(sim, n) for n in effective_options(self.run.config)[1]]
+        pool = [c for c in core if c in cands] or sorted(cands)
+        expected = min(pool, key=nick) if pool else None
+        if expected is not None and new != expected:
+            self.violate('election-rule', dict(detail, expected=expected, candidates=sorted(cands)), 'election-rule')
+
+    def before_operation(self, item, fired):
+        if fired and item['method'] == 'supvisors.end_sync' and item.get('args') and item['args'][0]:
+            self.forced_master[item['inst']] = self.sim.now_us
 
     def on_request(self, sim, inst, identifier, rtype, body):
         from supvisors.ttypes import RequestHeaders
@@ -216,7 +270,6 @@ class MasterConvergence(Observer):
                     self.violate('master-not-seen-running', dict(detail, observer=n, seen=views[n][2].get(m_ident)),
                                  'final-master-not-running')
             # Master kept: the only recognised, self-declared Master, undisturbed since, is still the Master
-            self._check_kept(comp, m_nick, detail)
             # cold-start rule
             self._check_rule(comp, m_nick, detail)
 
